@@ -121,6 +121,7 @@ def run():
                 ck.violation('links and emphasis: input=%r expected=%r observed=%r' % (text, want, got),
                              {'input': text, 'expected': want, 'observed': got, 'clause': 'Inline.links-and-emphasis' if not got.startswith('EXCEPTION') else 'Emphasis.failure'})
     ck.extra['strings_with_brackets'] = n_links
+    image_links_layer(ck, m, quick)
     inline_scan_layer(ck, m, quick)
     link_syntax_layer(ck, m, quick)
     tag_syntax_layer(ck, m, quick)
@@ -179,6 +180,58 @@ INLINE_UNSETTLED = {'unsettled-escaped-backtick-before-backticks', 'unsettled-au
 def notation(s):
     """Characters outside printable ASCII spelled {U+XXXX}, as spec/InlineScan.tla spells what a character reference stands for."""
     return ''.join(c if 32 <= ord(c) < 127 else '{U+%04X}' % ord(c) for c in s)
+
+
+def render_link_tokens(cls, toks):
+    """Expected HTML for a token sequence of spec/InlineLinks.tla; what stands inside an image is flattened to its text (alt)."""
+    out, depth = [], 0
+    for t in toks:
+        if t == -8:
+            if depth == 0:
+                out.append('<img src="u" alt="')
+            depth += 1
+        elif t == -9:
+            depth -= 1
+            if depth == 0:
+                out.append('" />')
+        elif t < 0:
+            if depth == 0 or t == -7:
+                out.append(TAGS[t])
+        else:
+            out.append(html.escape(cls[t - 1], quote=False))
+    return ''.join(out)
+
+
+def image_links_layer(ck, m, quick):
+    """spec/InlineLinks.tla with image openers: every string up to 7 (quick) / 8 (thorough) characters over {a, *, [, ], !}."""
+    five = ['a', '*', '[', ']', '!']
+    shards = [''] + [x + y for x in five for y in five]
+
+    def one(sh):
+        return core.tlc('InlineLinks', 'InlineLinksImgQ.cfg' if quick else 'InlineLinksImgT.cfg', workers=1, env={'SHARD': sh}, timeout=3000, heap='2g')
+    with ThreadPoolExecutor(max_workers=core.NCPU) as ex:
+        results = list(ex.map(one, shards))
+    n = imgs = 0
+    for res in results:
+        ck.add_tlc(res)
+        for rec in res.printed_json():
+            cls = rec['input']
+            text = cls.replace(']', '](u)')
+            want = render_link_tokens(cls, rec['out'])
+            got = observed(m, text)
+            ck.count(('image-links', cls) if -8 in rec['out'] else None)
+            n += 1
+            imgs += -8 in rec['out']
+            ck.traces += 1
+            if n % 9973 == 1:
+                ck.sample({'input': text, 'expected': want, 'observed': got})
+            if got != want:
+                ck.violation('links, images and emphasis: input=%r expected=%r observed=%r' % (text, want, got),
+                             {'input': text, 'expected': want, 'observed': got, 'clause': 'Inline.links-and-emphasis' if not got.startswith('EXCEPTION') else 'Emphasis.failure'})
+    if n < 50000 or imgs < 3000:
+        raise core.MachineryError('InlineLinks.tla (images) exported only %d strings (%d with an image)' % (n, imgs))
+    ck.extra['image_links_strings'] = n
+    ck.extra['image_links_strings_with_image'] = imgs
 
 
 def inline_scan_layer(ck, m, quick):
